@@ -210,8 +210,16 @@ CLAIMS = {
             "(C16_lengths_nondecreasing[_and_finite], C16_curve_lengths_nondecreasing_partial). T16b in exact arithmetic "
             "on the model's own formula (adjust_point_g instance): the adjusted end lies on the ray / inside the segment / "
             "beyond its end, at distance L - lp, and the adjusted polyline has length exactly L "
-            "(C16_adjusted_path_has_length_L); pp = pe excluded (D11 class). NOT proved: monotonicity with a non-zero "
-            "osu!-mode Catmull seed (surplus may round negative), IEEE rounding error of the adjusted end point - measured "
+            "(C16_adjusted_path_has_length_L); pp = pe excluded (D11 class). T16b in IEEE arithmetic (binary32 end point, "
+            "binary64 lengths; coordinates finite with |c| <= 2^20, 0 <= L - lp <= 2^20, exact segment length >= 2^-10, which "
+            "follows from a computed f32 length >= 2^-9): the computed end point is finite and within E16 = 2^-24 (|prev.c| + "
+            "9.05 (L - lp)) + 2^-127 <= 0.63 px per coordinate of the exact point (C16_adjusted_end_ieee_bound); the f32 segment "
+            "length is exact up to 3.01 x 2^-24 relative; with zero seed and <= 2^50 vertices every cumulative length is the "
+            "exact one up to 3.01 x 2^-24 + 2n x 2^-53 relative (C16_cumulative_lengths_ieee_bound), hence the exact length of "
+            "the adjusted polyline is within an explicit bound of L (C16_adjusted_length_ieee_bound_full, "
+            "C16_calculate_length_ieee_bound, stated on a calculate_length outcome); Examples on a concrete cut. NOT proved: "
+            "monotonicity and accumulated error with a non-zero "
+            "osu!-mode Catmull seed (surplus may round negative), inputs outside the magnitude hypotheses - measured "
             "by the oracle (dist == L bitwise with the stated exceptions, cut geometry in f64, lengths start at 0 / monotone "
             "within 1e-5 / finite; the same request through a SliderPath first read without a length). Tie to the code: bit-exact correspondence of Curve::new "
             "(path and lengths) incl. arcs through real libm on grids and random control-point lists, all modes and length classes.",
@@ -252,9 +260,17 @@ CLAIMS = {
             "curve in exact arithmetic on the model's own formula (position_at_g instance) with the transcribed std binary "
             "search proved to meet its contract on every non-decreasing list: progress <= 0 gives the first vertex, >= 1 "
             "the last, lj/total gives vertex j, and the GLOBAL Lipschitz bound |pos a - pos b| <= |a-b| * total across "
-            "segments (C19_exact_whole_curve; with the real EPSILON guard the bound needs + 2 eps, shown). NOT proved: the "
-            "Lipschitz bound and vertex hits through lengths[i]/dist in IEEE arithmetic - measured by the oracle within "
-            "rounding slack. Tie "
+            "segments (C19_exact_whole_curve; with the real EPSILON guard the bound needs + 2 eps, shown). IEEE bounds for the "
+            "interpolation (coordinates finite with |c| <= 2^20, 0 <= d0 <= d <= d1 finite, the code's own guard false; the guard "
+            "constant is pinned): per coordinate the computed position is within E19 = 2^-24 (max|c0||c1| + 3.01 |c1-c0|) + 2^-125 "
+            "of the exact convex combination (C19_interpolation_ieee_bound), hence near the segment, a vertex hit at d = d1 "
+            "within E19 of p1 (C19_vertex_hit_ieee_bound) and the LOCAL Lipschitz bound slope |a-b| / (d1-d0) + 2 E19 inside a "
+            "segment (C19_local_lipschitz_ieee_bound); fl(fl(l_j/dist) dist) is within 2.001 x 2^-53 l_j + 2^-1075 (2 dist + 1) "
+            "of l_j (C19_vertex_fraction_distance_ieee) and for an interior vertex whose length is separated from both "
+            "neighbours the position at progress l_j/dist is vertex j up to an explicit bound "
+            "(C19_vertex_fraction_position_partial). NOT proved: vertex hits when several cumulative lengths lie within that "
+            "distance of each other and the GLOBAL Lipschitz bound across segments in IEEE arithmetic (both need chord <= arc "
+            "for the IEEE lengths) - measured by the oracle within rounding slack. Tie "
             "to the code: bit-exact position_at / progress_to_dist / idx_of_dist / interpolate_vertices.",
             "§6 C19"),
     "C20": ("Unbounded theorems (coq/Properties/C20.v): the lazy iterator state machine with its reversed tick stack equals "
